@@ -287,12 +287,16 @@ func ConvertConfig(tmplData *configTemplateData, w io.Writer) {
 		}
 		fmt.Fprintf(w, "#\n")
 
-		encoder := yaml.NewEncoder(w)
-		if err := encoder.Encode(tmplData.Data); err != nil {
-			fmt.Fprintf(os.Stderr, "YAML encoding error %v\n", err)
-			os.Exit(1)
+		// A file that already is in the v2 layout is written back as it is. A v1 file still has
+		// to go through the template below, which reads the v1 locations.
+		if version, ok := _fetch(tmplData.Data, "General.ConfigurationVersion"); ok && fmt.Sprint(version) == "2" {
+			encoder := yaml.NewEncoder(w)
+			if err := encoder.Encode(tmplData.Data); err != nil {
+				fmt.Fprintf(os.Stderr, "YAML encoding error %v\n", err)
+				os.Exit(1)
+			}
+			return
 		}
-		return
 	}
 
 	// Otherwise, generate the full documented template
